@@ -511,6 +511,18 @@ func (h *history) apply(a []string) (violation, expected, got string) {
 	case "doc":
 		h.origs = append(h.origs, a[1])
 		h.live = append(h.live, mustJSON(a[1]))
+	case "edit":
+		// the caller changes its own document object between two searches: from now on the
+		// object is another document (at the same address, often with as many members)
+		j := atoi(a[1])
+		if j < len(h.live) {
+			editInPlace(h.live[j], atoi(a[2]))
+			h.origs[j] = ref.Canon(h.live[j])
+			// results handed out earlier may be parts of this very object (a result is not a
+			// copy): what they show now is the caller's own doing
+			h.kept = nil
+			h.interesting = true
+		}
 	case "search", "oneshot":
 		var expr string
 		var j int
@@ -731,6 +743,10 @@ func TestC13(t *testing.T) {
 				} else {
 					do("doc", ref.Canon(genDoc(t)))
 				}
+			},
+			"editDoc": func(t *rapid.T) {
+				j := rapid.IntRange(0, len(h.origs)-1).Draw(t, "j")
+				do("edit", fmt.Sprint(j), fmt.Sprint(rapid.IntRange(0, 4).Draw(t, "editMode")))
 			},
 			"search": func(t *rapid.T) {
 				i := rapid.IntRange(0, len(h.exprs)-1).Draw(t, "i")
